@@ -196,14 +196,14 @@ fn new_line_state(
             Combined(Number(*n), InMergeConflict::No)
         }
         // The prefixes are specific to the previous line, but the number of merge parents remains
-        // equal to the prefix length.
-        HunkHeader(Combined(Prefix(prefix), InMergeConflict::No), _, _, _) => {
-            Combined(Number(prefix.len()), InMergeConflict::No)
+        // the same.
+        HunkHeader(Combined(Prefix(_, n), InMergeConflict::No), _, _, _) => {
+            Combined(Number(*n), InMergeConflict::No)
         }
-        HunkMinus(Combined(Prefix(prefix), in_merge_conflict), _)
-        | HunkZero(Combined(Prefix(prefix), in_merge_conflict), _)
-        | HunkPlus(Combined(Prefix(prefix), in_merge_conflict), _) => {
-            Combined(Number(prefix.len()), in_merge_conflict.clone())
+        HunkMinus(Combined(Prefix(_, n), in_merge_conflict), _)
+        | HunkZero(Combined(Prefix(_, n), in_merge_conflict), _)
+        | HunkPlus(Combined(Prefix(_, n), in_merge_conflict), _) => {
+            Combined(Number(*n), in_merge_conflict.clone())
         }
         HunkMinus(Combined(Number(n), in_merge_conflict), _)
         | HunkZero(Combined(Number(n), in_merge_conflict), _)
@@ -273,15 +273,15 @@ fn new_line_state(
         (Some(' '), None, None) => Some(HunkZero(Unified, maybe_zero_raw_line())),
         (Some('+'), None, None) => Some(HunkPlus(Unified, maybe_plus_raw_line())),
         (Some('-'), Some(prefix), Some(in_merge_conflict)) => Some(HunkMinus(
-            Combined(Prefix(prefix), in_merge_conflict),
+            Combined(Prefix(prefix, diff_type.n_parents()), in_merge_conflict),
             maybe_minus_raw_line(),
         )),
         (Some(' '), Some(prefix), Some(in_merge_conflict)) => Some(HunkZero(
-            Combined(Prefix(prefix), in_merge_conflict),
+            Combined(Prefix(prefix, diff_type.n_parents()), in_merge_conflict),
             maybe_zero_raw_line(),
         )),
         (Some('+'), Some(prefix), Some(in_merge_conflict)) => Some(HunkPlus(
-            Combined(Prefix(prefix), in_merge_conflict),
+            Combined(Prefix(prefix, diff_type.n_parents()), in_merge_conflict),
             maybe_plus_raw_line(),
         )),
         _ => None,
